@@ -397,6 +397,14 @@ func RunCheck(o CheckOpts) int {
 		tb, _ := json.MarshalIndent(timing, "", " ")
 		os.WriteFile(timingPath, tb, 0o644)
 	}
+	// findings whose clause is deliberately not stated or not generated (there is no obligation that could fail) are
+	// listed on every run as well, so that the output names every recorded finding of the property
+	for i := range known.Findings {
+		f := &known.Findings[i]
+		if f.Property == o.Prop && strings.Contains(f.Obligation, "(clause not") {
+			knownLines = append(knownLines, fmt.Sprintf("KNOWN-FINDING: property=%s %s %s", o.Prop, f.Obligation, f.What))
+		}
+	}
 	sort.Strings(knownLines)
 	for _, l := range knownLines {
 		fmt.Println(l)
